@@ -552,7 +552,17 @@ def str_method(I, s, name, args, kwargs):
             except Exception:
                 pass
         run.externals = getattr(run, "externals", 0) + 1      # uninterpreted in the proof: such a path is not cross-checked against CPython
-        return VStr(_fn(f"str_{name}", S, S)(s.t), s.tags)
+        # one string constant per (method, argument term) instead of an uninterpreted function application: z3's sequence solver is unstable on
+        # formulas that mix string predicates with UFs (20 s `unknown` on a five-way Contains); identical arguments still give identical results
+        if not hasattr(run, "strfn_cache"):
+            run.strfn_cache = {}
+        key = (name, s.t.get_id())
+        if key not in run.strfn_cache:
+            c = z3.String(run.fresh_name(f"{name}!of"))
+            run.strfn_cache[key] = (c, s.t)
+            enc = _fn("encodable", S, z3.BoolSort())
+            run.assume(z3.Implies(enc(s.t), enc(c)), persist=True)
+        return VStr(run.strfn_cache[key][0], s.tags)
     if name == "startswith":
         a = args[0]
         if isinstance(a, VTuple):
